@@ -540,6 +540,11 @@ def gateTOp (g : AGate) : Option TOp :=
         | .lit s => some s.toList
         | _ => none }
 
+/-- the same, with the parameter as the exporter `q` prints it (`{p:.2f}` under `qasmParam2f`) -/
+def gateTOpQ (q : Quirks) (fv : FloatOf) (g : AGate) : Option TOp :=
+  (kind g.cls).map fun (b, n) =>
+    { base := b, nctrl := n, wires := g.wires, ptext := qasmParamText q fv g.param }
+
 /-! ## well-formedness and triggers -/
 
 /-- a token of the emitted text: non-empty, no blank, newline or parenthesis -/
@@ -603,5 +608,37 @@ def qasmReadable (q : Quirks) (fv : FloatOf) (c : Circ) : Bool :=
   match qasmBody q fv c with
   | .ok body => body.all lineOK
   | .error _ => false
+
+/-! ## domain of the QASM read-back: gate set and names -/
+
+/-- the QASM exporter with the formals and the parameter test repaired (both fixed in the code);
+`qasmParam2f` is left free, so `q` ranges over the fully repaired model and the code as it is -/
+def QasmRepaired (q : Quirks) : Prop := q.qasmFormalsFromKeys = false ∧ q.exportParamTruthy = false
+
+/-- gate classes the QASM text has a reading for: nop gates (no line) and (controlled) library
+gates; excludes only an `MCtrl` of something that is not one of the library's nine base gates -/
+def qasmExportable (cls : GClass) : Bool := cls.isNop || (kind cls).isSome
+
+/-- characters of a qubit / circuit name: letters, digits, `_`, `.` -/
+def nameCharOK (c : Char) : Bool := c.isAlphanum || c == '_' || c == '.'
+
+/-- identifier-shaped (dotted names of compiled functions included) -/
+def identOK (t : Text) : Bool := !t.isEmpty && t.all nameCharOK
+
+/-- a parameter literal is one token (true of every `repr` of a Python number) -/
+def paramPlain : Param → Bool
+  | .lit s => s.toList.all (fun c => c != ' ' && c != '\n')
+  | _ => true
+
+def paramsPlain (gs : List AGate) : Bool := gs.all (fun g => paramPlain g.param)
+
+/-- condition on the circuit's names only: the circuit name and every qubit name are
+identifier-shaped, the names are distinct (keys of a dict), and the fallback name `q<i>` of a
+qubit without a name is not also the name of some qubit -/
+def wellNamed (c : Circ) : Bool :=
+  identOK c.name && c.qmap.all (fun kv => identOK kv.1) &&
+  decide ((c.qmap.map (·.1)).Nodup) &&
+  (List.range c.numQubits).all (fun i =>
+    (getKeyByIndex c.qmap i).isSome || !(c.qmap.map (·.1)).contains ('q' :: natText i))
 
 end QV.Export
